@@ -1,5 +1,6 @@
 import KyupyVerif.Model.Encode
 import KyupyVerif.Gen.MvTables
+import KyupyVerif.Gen.EncTables
 /-! Driver extension for C15: the model functions of `Model/Encode.lean` on encoded inputs.
 Tokens: a shape is `d0,d1,…` (`-` for 0-d); data is `x0,x1,…` in C order (`-` for empty); a list of strings is
 `s<codes>|s<codes>|…` with comma-separated code points (`-` for no string).  Answers: `<shape> <data>`, `s<codes>`,
@@ -21,6 +22,16 @@ def handle (cmd : String) (args : List String) : Option String :=
   | "enc.interp", [c] => some (toString (interpretWith Gen.interpretAscii c.toNat!))
   | "enc.mvarray", [ss] =>
       some (match mvarray Gen.interpretAscii (strs ss) with | some a => showArr a | none => "err")
+  | "enc.mvarrayn", [depth, ss] =>     -- nested arguments: groups separated by `/`, groups of groups by `//` (`_` = empty list)
+      let grp (t : String) : List (List Nat) := if t == "_" then [] else strs t
+      let grp2 (t : String) : List (List (List Nat)) := if t == "_" then [] else (t.splitOn "/").map grp
+      let r := match depth with
+        | "1" => mvarrayN1 Gen.interpretAscii (grp ss)
+        | "2" => mvarray2 Gen.interpretAscii (grp2 ss)
+        | _ => mvarray3 Gen.interpretAscii (if ss == "_" then [] else (ss.splitOn "//").map grp2)
+      some (match r with | some f => showFlat f | none => "err")
+  | "enc.popcountint", [da] =>
+      some (match popcountInt Gen.popCountLut (ints da) with | some n => toString n | none => "err")
   | "enc.mvstr", [d, sh, da] =>
       some (match (Flat.toArr ⟨nats sh, nats da⟩).bind (mvStr Gen.renderChars (nats d)) with
         | some l => "s" ++ ",".intercalate (l.map toString) | none => "err")
